@@ -180,8 +180,7 @@ vk_bytes_to!(vk_int_bytes_to_small_sle_neg, vk_int_bytes_to_large3_sle_neg, 2, t
 // to_signed_be_bytes: `bytes.insert(0, sign byte)` on a Vec of SYMBOLIC length (a memmove of symbolic size after a
 // possible reallocation) exhausts CBMC (> 14 GB, no result in 500 s), with RefSmall as well as with RefLarge inputs.
 // The big-endian signed form is therefore checked with a CONCRETE top word (palette) and fully symbolic low words:
-// for a positive number every length is then concrete; for a negative one the only symbolic length decision left is
-// the borrow out of the two low words.  Checked: the meaning of the bytes (oracle) and be == reversed le.
+// for a positive number every length is then concrete.  Checked: the meaning of the bytes (oracle) and be == reversed le.
 macro_rules! vk_bytes_sbe_ctop {
     ($name:ident, $neg:expr, $tops:expr) => {
         #[cfg_attr(kani, kani::proof)]
@@ -206,8 +205,34 @@ macro_rules! vk_bytes_sbe_ctop {
     };
 }
 vk_bytes_sbe_ctop!(vk_int_bytes_sbe_ctop_pos, false, [1, 0x7f, 0x80, 0x1234, 1 << 63, u64::MAX]);
-// tops where magnitude - 1 changes its byte length / sign byte when the low words are zero
-vk_bytes_sbe_ctop!(vk_int_bytes_sbe_ctop_neg_b, true, [1, 0x80, 0x100, 1 << 63]);
+// NEGATIVE numbers: even with a literal top word the borrow out of the symbolic low words keeps the length symbolic
+// (no result in 300 s): literal values only -- at every shape of the borrow / sign-byte decision
+#[cfg_attr(kani, kani::proof)]
+#[cfg_attr(not(kani), test)]
+#[cfg_attr(kani, kani::unwind(34))]
+fn vk_int_bytes_sbe_concrete_neg() {
+    let vals: [[Word; 3]; 7] = [
+        [0, 0, 1],                     // -(2^128): magnitude - 1 loses its top word
+        [0, 0, 0x80],                  // magnitude - 1 = 0x7f..: no sign byte needed
+        [0, 0, 0x100],                 // magnitude - 1 loses a byte
+        [0, 0, 1 << 63],
+        [1, 0, 1],                     // no borrow into the top word
+        [u64::MAX, u64::MAX, 0x7f],
+        [0, 5, 0x81],
+    ];
+    let mut t = 0;
+    while t < 7 {
+        let w = vals[t];
+        let (b, blen) = vk_copy(&RefLarge(&w).to_signed_be_bytes(true));
+        assert!(blen <= 25);
+        let img = vk_bytes_image(&b, blen, true, true);
+        assert!(vk_img_eq(img, vk_sign_mag_image(true, [w[0], w[1], w[2], 0])));
+        let (a, alen) = vk_copy(&RefLarge(&w).to_signed_le_bytes(true));
+        assert!(vk_is_reverse(&a, alen, &b, blen));
+        t += 1;
+    }
+    cover();
+}
 
 // ---------------------------------------------------------------------------------------------------------------
 // (B) bytes -> value on ARBITRARY byte strings (not only those the library prints: non-minimal encodings, leading
